@@ -243,6 +243,7 @@ func main() {
 					g0 := deephash.Of(globals()...)
 					sharedWritten := false
 					nexec := 0
+					rechecks := 0
 					ex := &explore.Explorer{Bound: bound, NoLabels: true, Stop: c.Expired, Mine: c.Mine, ShardDepth: 2, Primary: c.Shard == 0}
 					if bound < 2 {
 						ex.ShardDepth = 1
@@ -302,8 +303,32 @@ func main() {
 						if c.WantSample() && x.Deviations() == 2 {
 							c.Sample(det())
 						}
+						// determinism self-check: replay the recorded schedule and require identical observations
+						if nexec%257 == 0 {
+							pos := 0
+							sh2 := kt.fresh()
+							r2, e2, _ := runOps(sh2, ts, func(n int, cost int) int {
+								ch := 0
+								if pos < len(x.Choices) {
+									ch = x.Choices[pos]
+								}
+								pos++
+								if ch >= n {
+									panic("explore: divergence while replaying a schedule for the determinism self-check")
+								}
+								return ch
+							})
+							rechecks++
+							for i := range ts {
+								if e2[i] != errs[i] || (!kt.rsa && !bytes.Equal(r2[i], results[i])) || pos != len(x.Choices) {
+									panic(fmt.Sprintf("nondeterministic harness: schedule %s of %s gives different observations when replayed", compact(x.Choices), scen))
+								}
+							}
+						}
 					}
 					ex.Run()
+					_ = rechecks
+					c.PartNote("determinism self-check: every 257th schedule was replayed and gave identical observations")
 					if deephash.Of(globals()...) != g0 {
 						sharedWritten = true
 					}
